@@ -59,12 +59,16 @@ pub fn run(args: &Args, rep: &mut Report) {
         }
     }
     // (a') structured families: nested parallels completing in every order, histories at every level
-    for d in 0..args.scale(12, 200) {
+    for d in 0..args.scale(15, 240) {
         if crate::report::should_stop() {
             break;
         }
         let dm = dms[d % dms.len()];
-        let (doc, paths) = if d % 2 == 0 { crate::corpus::done_tree(&mut rng, dm, d) } else { crate::corpus::history_tree(&mut rng, dm, d) };
+        let (doc, paths) = match d % 3 {
+            0 => crate::corpus::done_tree(&mut rng, dm, d),
+            1 => crate::corpus::history_tree(&mut rng, dm, d),
+            _ => crate::corpus::guarded_eventless(&mut rng, d),
+        };
         if let Ok(f) = Flat::from_doc(&doc) {
             for (i, p) in paths.iter().take(3).enumerate() {
                 if w.run_one(&doc, &f, p, i == 0) {
